@@ -623,6 +623,7 @@ pub fn run(ctx: &Ctx) {
         if !ctx.want(case) {
             continue;
         }
+        let _g = op_begin("value-through-relays", case);
         run_case(ctx, &sz, &relays, case);
     }
     for r in relays {
